@@ -1,0 +1,84 @@
+//go:build verif
+
+package packet
+
+import (
+	"bytes"
+	"net"
+)
+
+// AddrList (the ICMPv6 hunt list): a slice used as a set keyed by MAC.
+
+// spec_addr_index: the reference search: first position at or after i whose MAC equals mac, -1 if none.
+func spec_addr_index(l []Addr, mac net.HardwareAddr, i int) int {
+	if i < 0 || i >= len(l) {
+		return -1
+	}
+	if bytes.Equal(l[i].MAC, mac) {
+		return i
+	}
+	return spec_addr_index(l, mac, i+1)
+}
+
+// VerifSpecAddrListIndex: what AddrList.Index computes (exported for the handlers' contracts).
+func VerifSpecAddrListIndex(s *AddrList, mac net.HardwareAddr) int {
+	return spec_addr_index(s.list, mac, 0)
+}
+
+func verif_inv_AddrList_index_1(s *AddrList, mac net.HardwareAddr, rangeindex int) bool {
+	return s != nil && -1 <= rangeindex && rangeindex < len(s.list) &&
+		spec_addr_index(s.list, mac, 0) == spec_addr_index(s.list, mac, rangeindex+1)
+}
+func verif_dec_AddrList_index_1(s *AddrList, rangeindex int) int { return len(s.list) - rangeindex }
+
+// index / Index: the position of the first entry with that MAC, -1 if there is none.
+//
+//verif:props C14
+func verif_contract_AddrList_index(s *AddrList, mac net.HardwareAddr) int {
+	vRequires(s != nil)
+	vCanary()
+	r := s.index(mac)
+	vEnsures(r == spec_addr_index(s.list, mac, 0))
+	vEnsures(r == -1 || (0 <= r && r < len(s.list) && bytes.Equal(s.list[r].MAC, mac)))
+	return r
+}
+
+// Add: a MAC already present changes nothing (idempotent); otherwise the address is appended.
+//
+//verif:props C14
+func verif_contract_AddrList_Add(s *AddrList, addr Addr) error {
+	vRequires(s != nil)
+	vCanary()
+	was := spec_addr_index(s.list, addr.MAC, 0)
+	n0 := len(s.list)
+	vModifiesObj(s)
+	vModifiesMems("elem:struct{MAC net.HardwareAddr")
+	err := s.Add(addr)
+	vEnsures(err == nil)
+	if was != -1 {
+		vEnsures(len(s.list) == n0)
+	} else {
+		vEnsures(len(s.list) == n0+1 && s.list[n0].IP == addr.IP && bytes.Equal(s.list[n0].MAC, addr.MAC))
+	}
+	return err
+}
+
+// Del: afterwards the list is one shorter when the MAC was present, unchanged otherwise.
+//
+//verif:props C14
+func verif_contract_AddrList_Del(s *AddrList, addr Addr) error {
+	vRequires(s != nil)
+	vCanary()
+	was := spec_addr_index(s.list, addr.MAC, 0)
+	n0 := len(s.list)
+	vModifiesObj(s)
+	vModifiesMems("elem:struct{MAC net.HardwareAddr")
+	err := s.Del(addr)
+	vEnsures(err == nil)
+	if was == -1 {
+		vEnsures(len(s.list) == n0)
+	} else {
+		vEnsures(len(s.list) == n0-1)
+	}
+	return err
+}
